@@ -1,5 +1,6 @@
 import Cppcms.C20.Lemmas
 import Cppcms.C20.LemmasMapper
+import Cppcms.C20.LemmasTpl
 import Cppcms.C20.Example
 /-!
 # C20 — property theorems
@@ -347,6 +348,62 @@ theorem parseTpl_keyword_roundtrip (a : Bytes) (ha : BraceFree a) (k : Bytes) (h
 example : ∃ t, parseTpl [47, 123, 108, 97, 110, 103, 125, 47, 120] false = .ok (t, 0) ∧
     writeTpl t [] [([108, 97, 110, 103], [101, 110])] [([108, 97, 110, 103], [104, 101])] = .ok [47, 104, 101, 47, 120] := by
   exact ⟨⟨[[47], [47, 120]], [0], [[108, 97, 110, 103]]⟩, by decide, by decide⟩
+
+/-- **Templates, general grammar** (`l₁{p₁}…lₙ{pₙ}tail`, placeholders = digit strings of any length or keywords, mixed
+freely): `real_assign` stores exactly the literals, the `atoi` values (0 for keywords) and the keys; the arity is the
+largest index. -/
+theorem parseTpl_general_grammar (segs : List (Bytes × Ph)) (hs : GSegsOk segs) (tail : Bytes) (ht : BraceFree tail) :
+    parseTpl (tplPre segs ++ tail) false =
+      .ok (⟨segs.map (·.1) ++ [tail], segs.map (·.2.index), segs.map (·.2.key)⟩,
+           (segs.foldl (fun m lp => lp.2.bump m) (0 : Int)).toNat) :=
+  parseTpl_general segs hs tail ht
+
+/-- **Error ordering**: after any well-formed prefix the first malformed construct decides the error, whatever follows
+(`{}` emptyIndex · all-digit placeholder with `atoi` 0 zeroIndex · `}` outside strayClose · never closed `{` unclosed). -/
+theorem parseTpl_first_error_wins (segs : List (Bytes × Ph)) (hs : GSegsOk segs) (a : Bytes) (ha : BraceFree a) (rest : Bytes)
+    (isApp : Bool) :
+    parseTpl (tplPre segs ++ (a ++ bOpen :: bClose :: rest)) isApp = .error .emptyIndex ∧
+    (∀ ds, ds ≠ [] → ds.any (fun c => Gen.tplNotDigit c.toNat) = false → atoiDigits ds = 0 →
+        parseTpl (tplPre segs ++ (a ++ bOpen :: (ds ++ bClose :: rest))) isApp = .error .zeroIndex) ∧
+    parseTpl (tplPre segs ++ (a ++ bClose :: rest)) isApp = .error .strayClose ∧
+    ((∀ c ∈ rest, c.toNat ≠ Gen.tplClose) → parseTpl (tplPre segs ++ (a ++ bOpen :: rest)) isApp = .error .unclosed) :=
+  parseTpl_error_order segs hs a ha rest isApp
+
+/-- a digit string denoting a number below 2³¹ is read as that number (`{10}`, `{123}`); the glibc behaviour for longer
+strings (saturation, truncation to `int`, possibly 0 or negative) is `atoiDigits` itself, tied by correspondence -/
+theorem template_index_value (ds : Bytes) (h : ds.foldl (fun acc c => acc * 10 + (c.toNat - 48)) 0 < 2 ^ 31) :
+    atoiDigits ds = Int.ofNat (ds.foldl (fun acc c => acc * 10 + (c.toNat - 48)) 0) :=
+  atoiDigits_small ds h
+
+/-- **Instantiation, general grammar**: each index placeholder ↦ its parameter, each keyword ↦ the call's keyword
+parameter, else the `set_value` helper, else nothing; an index outside `1..#params` (also a negative one) ⇒ `indexRange`. -/
+theorem writeTpl_general_grammar (params : List Bytes) (helpers overrides : List (Bytes × Bytes))
+    (segs : List (Bytes × Ph)) (tail : Bytes) :
+    writeTpl ⟨segs.map (·.1) ++ [tail], segs.map (·.2.index), segs.map (·.2.key)⟩ params helpers overrides =
+      match instG params helpers overrides segs tail with
+      | some r => .ok r
+      | none => .error .indexRange :=
+  writeTpl_general params helpers overrides segs tail
+
+/-- `/{lang}/p{10}-{1}` : a mixed template with a two-digit index — well-formed, arity 10; instantiated with ten parameters -/
+example :
+    let segs : List (Bytes × Ph) := [([47], .kw [108, 97, 110, 103]), ([47, 112], .idx [49, 48]), ([45], .idx [49])]
+    GSegsOk segs ∧ tplPre segs = [47, 123, 108, 97, 110, 103, 125, 47, 112, 123, 49, 48, 125, 45, 123, 49, 125] ∧
+    parseTpl (tplPre segs ++ []) false = .ok (⟨[[47], [47, 112], [45], []], [0, 10, 1], [[108, 97, 110, 103], [], []]⟩, 10) ∧
+    instG [[97], [98], [99], [100], [101], [102], [103], [104], [105], [106]] [([108, 97, 110, 103], [101, 110])] [] segs [] =
+      some [47, 101, 110, 47, 112, 106, 45, 97] ∧
+    instG [[97]] [] [] segs [] = none := by
+  refine ⟨?_, by decide, by decide, by decide, by decide⟩
+  intro lp h
+  simp only [List.mem_cons, List.mem_nil_iff, or_false] at h
+  rcases h with rfl | rfl | rfl
+  · exact ⟨by intro c hc; revert c; decide, by decide, by intro c hc; revert c; decide⟩
+  · exact ⟨by intro c hc; revert c; decide, by decide, by decide, by decide⟩
+  · exact ⟨by intro c hc; revert c; decide, by decide, by decide, by decide⟩
+
+/-- over-long digit strings: `{4294967296}` is index 0 (rejected), `{4294967297}` is index 1, `{99999999999999999999}` is −1 -/
+example : atoiDigits [52, 50, 57, 52, 57, 54, 55, 50, 57, 54] = 0 ∧ atoiDigits [52, 50, 57, 52, 57, 54, 55, 50, 57, 55] = 1 ∧
+    atoiDigits [57, 57, 57, 57, 57, 57, 57, 57, 57, 57, 57, 57, 57, 57, 57, 57, 57, 57, 57, 57] = -1 := by decide
 
 /-- the mapper's syntax constants as extracted from the source: keys may not contain `/ ; ,`, may not be
 `.` or `..`; placeholders are `{…}`; an index is a string of ASCII digits -/
